@@ -142,6 +142,30 @@ fn heads(tier: Tier) -> Vec<(Vec<u8>, bool)> {
             ));
         }
     }
+    if deep(tier) {
+        // every header list of length 3 over a reduced atom set
+        let red: Vec<String> = vec![
+            "Host: h".into(), "X-A: 1".into(), "x-a:2".into(), "X-A:\tA:b ".into(), "X-E:".into(),
+            "Cookie: a=1; b=\"x: y\"".into(), "Accept: */*;q=0.8".into(), "X-A: 12: 30".into(),
+        ];
+        for a in &red {
+            for b in &red {
+                for c in &red {
+                    let (m, t, v10) = rl(&mut k);
+                    out.push((head(m, &t, if v10 { "1.0" } else { "1.1" }, &[a.clone(), b.clone(), c.clone()]), v10));
+                }
+            }
+        }
+        // every request line with every single atom
+        for m in &ms {
+            for t in &ts {
+                for (i, a) in at.iter().enumerate() {
+                    let v10 = i % 7 == 3;
+                    out.push((head(m, t, if v10 { "1.0" } else { "1.1" }, &[a.clone()]), v10));
+                }
+            }
+        }
+    }
     // long lists by cycling atoms
     for n in [3usize, 8, 63, 64] {
         for off in 0..(if !full(tier) { 1 } else { 4 }) {
